@@ -5,6 +5,9 @@ import (
 	"fmt"
 	"os"
 	"strings"
+	"sync"
+	"sync/atomic"
+	"time"
 )
 
 // forEachEmitted calls f with the JSON text of every line that TLC printed through
@@ -29,6 +32,9 @@ func forEachEmitted(path, tag string, f func(js string) error) error {
 		}
 	}
 	n := 0
+	if prog != nil {
+		startCaseWatchdog()
+	}
 	for sc.Scan() {
 		line := sc.Text()
 		if !strings.HasPrefix(line, prefix) || !strings.HasSuffix(line, `"`) {
@@ -41,6 +47,7 @@ func forEachEmitted(path, tag string, f func(js string) error) error {
 		n++
 		if prog != nil {
 			_, _ = prog.WriteAt([]byte(fmt.Sprintf("%-12d", n)), 0)
+			caseStarted.Store(time.Now().UnixNano())
 		}
 		if err := f(line); err != nil {
 			return err
@@ -72,4 +79,31 @@ func unescapeTLA(s string) string {
 		b.WriteByte(s[i])
 	}
 	return b.String()
+}
+
+// The watchdog of an isolated worker: a case of the real code that does not come back within VH_CASE_LIMIT seconds
+// (default 60) ends the worker at once - the parent reads the case's ordinal from the progress file - instead of
+// letting it spin until the worker's own timeout.
+var caseStarted atomic.Int64
+var watchdogOnce sync.Once
+
+func startCaseWatchdog() {
+	watchdogOnce.Do(func() {
+		limit := 60 * time.Second
+		if v := os.Getenv("VH_CASE_LIMIT"); v != "" {
+			var n int
+			if _, err := fmt.Sscan(v, &n); err == nil && n > 0 {
+				limit = time.Duration(n) * time.Second
+			}
+		}
+		go func() {
+			for {
+				time.Sleep(time.Second)
+				if t := caseStarted.Load(); t != 0 && time.Since(time.Unix(0, t)) > limit {
+					fmt.Fprintf(os.Stderr, "fatal error: watchdog: the case has been running for more than %v (hang)\n", limit)
+					os.Exit(97)
+				}
+			}
+		}()
+	})
 }
